@@ -135,7 +135,7 @@ class C11(Check):
                 pass
             out.append(result(HELD, cls="corrfunc-ddonly", nontrivial=False))
             return
-        cf = gen.gen_corrfunc(rng, nb, npatch, case["auto"], members=members, sparsity=sparsity)
+        cf = gen.gen_corrfunc(rng, nb, npatch, case["auto"], members=members, sparsity=sparsity, special=True)
         path = tmp / "cf.hdf"
         try:
             cf.to_file(path)
@@ -174,7 +174,7 @@ class C11(Check):
 
         nb, npatch, auto = int(rng.integers(1, 9)), int(rng.integers(1, 13)), bool(rng.random() < 0.5)
         binning = gen.gen_binning(rng, nb)
-        nc = gen.gen_normalised_counts(rng, binning, npatch, auto)
+        nc = gen.gen_normalised_counts(rng, binning, npatch, auto, special=True)
         n = 0
         for name, obj, cls in (("binning", binning, Binning), ("counts", nc.counts, PatchedCounts),
                                ("sum_weights", nc.sum_weights, PatchedSumWeights), ("normalised", nc, NormalisedCounts)):
@@ -195,8 +195,8 @@ class C11(Check):
 
         rng = np.random.default_rng([case["seed"], 15])  # same stream as C15
         p = gen_params(rng)
-        if p.get("cosmology") == "custom":
-            p["cosmology"] = "WMAP7"
+        if str(p.get("cosmology", "")).startswith(("custom", "flcdm")):
+            p["cosmology"] = "WMAP7"  # only named cosmologies can be serialised (documented)
         cfg = Configuration.create(**realise(p))
         path = tmp / "config.yml"
         tag = "custom-edges" if "edges" in p else p["method"]
@@ -271,7 +271,8 @@ class C11(Check):
 
         vals = dict(
             num_records=int(rng.integers(0, 10**9)),
-            sum_weights=float(rng.choice([rng.uniform(0, 1e6), 10.0 ** rng.uniform(-300, 300), 0.1 + 0.2, 1 / 3])),
+            sum_weights=float(rng.choice([rng.uniform(0, 1e6), 10.0 ** rng.uniform(-300, 300), 0.1 + 0.2, 1 / 3, 0.0, -0.0,
+                                          -rng.uniform(0, 10)])),
             center=AngularCoordinates([rng.uniform(0, 2 * np.pi), np.arcsin(rng.uniform(-1, 1))]),
             radius=AngularDistances(float(rng.choice([0.0, 5e-324, rng.uniform(0, np.pi), 10.0 ** rng.uniform(-17, 0)]))),
         )
@@ -307,6 +308,29 @@ class C11(Check):
         if rng.random() < 0.6:
             cols["z"] = rng.uniform(0.01, 2, n)
             kw["redshift_name"] = "z"
+        if "w" in cols and rng.random() < 0.4:
+            # weights of patch 0 sum to exactly zero (+1, -1 pairs): needs given centres (a zero-weight mean has no direction)
+            from yaw import AngularCoordinates
+
+            sel = np.flatnonzero(cols["patch"] == 0)
+            sel = sel[: 2 * (len(sel) // 2)]
+            cols["w"][sel] = np.tile([1.0, -1.0], len(sel) // 2)
+            cen = np.array([[np.deg2rad(cols["ra"][cols["patch"] == k].mean()), np.deg2rad(cols["dec"][cols["patch"] == k].mean())]
+                            for k in range(npatch)])
+            # every object must keep its patch: use the index column to define membership, centres only for metadata
+            kw.pop("patch_name")
+            cols_xyz = None
+            _ = cols_xyz
+            from vlib import cats as vcats
+            from vlib import gen as vgen
+
+            xyz = vgen.radec_to_xyz(np.deg2rad(cols["ra"]), np.deg2rad(cols["dec"]))
+            cen_xyz = vgen.radec_to_xyz(cen[:, 0], cen[:, 1])
+            nearest, _m = vcats.nearest_centre(xyz, cen_xyz)
+            if len(np.unique(nearest)) == npatch and len(sel) >= 2 and abs(cols["w"][nearest == nearest[sel[0]]].sum()) >= 0:
+                kw["patch_centers"] = AngularCoordinates(cen)
+            else:
+                kw["patch_name"] = "patch"
         cat = Catalog.from_dataframe(tmp / "cat", pd.DataFrame(cols), max_workers=1, **kw)
         back = Catalog(tmp / "cat", max_workers=1)
         if list(back.keys()) != list(cat.keys()):
